@@ -246,6 +246,25 @@ func computeLocksets(c *Ctx, scope map[*ssa.Function]bool, perInstance map[strin
 					continue
 				}
 				var ls lockset
+				if _, isMC := e.Site.(*ssa.MakeClosure); isMC && (e.Kind == "closure-call" || e.Kind == "closure-made") {
+					// a closure bound to a local variable: its entry lockset is the intersection over the
+					// sites that call it (not the lockset where it was created)
+					e.Kind = "closure-made"
+				}
+				if mc, isMC := e.Site.(*ssa.MakeClosure); isMC && e.Kind == "closure-arg" {
+					// the closure runs inside the call that receives it: use that call's lockset
+					if refs := mc.Referrers(); refs != nil {
+						for _, r := range *refs {
+							if ci, ok := r.(ssa.CallInstruction); ok {
+								for _, a := range ci.Common().Args {
+									if a == ssa.Value(mc) {
+										e.Site = r
+									}
+								}
+							}
+						}
+					}
+				}
 				switch {
 				case e.Kind == "static" || e.Kind == "closure-call" || e.Kind == "closure-arg" || e.Kind == "invoke":
 					if _, isGo := e.Site.(*ssa.Go); isGo {
